@@ -252,6 +252,11 @@ def run_matrix(chk, accepted, dbgs=(0, 1), args_of=lambda g: [(n, v) for (n, _, 
                 chk.violation({"class": "redeem-encoding", "what": "%s || %s" % (x[:160], g.text[:200])}, dict(base, broken="redeem program: CMR differs from commit / encoding does not decode"))
                 continue
             want = "ok" if s == "ok" else "failed"
+            if getattr(g, "expect", None) and ci != g.expect:
+                # the program is built so that its outcome is known without any model (e.g. one value written in two notations)
+                chk.violation({"class": "behaviour", "what": "built to end %s, impl=%s || %s" % (g.expect, ci, g.text[:200])},
+                              dict(base, expected=g.expect, broken="a program whose outcome is fixed by construction (the same constant written in two notations and compared) ends differently"))
+                continue
             if ci != want and pruned and "twins=yes" in x and ("mexec=ok" in x) == (want == "ok"):
                 chk.violation({"class": "upstream-ihr-twins", "what": g.text[:300]}, dict(base, expected=want,
                               broken="the pruned program behaves as expected in memory but contains assertl / assertr twins with one identity hash; its encoding merges them (D13)"))
@@ -473,8 +478,54 @@ def scope_type_family():
             ("I", "fn f(b: %(t2)s) -> %(t1)s { a }\nfn main() { let a: %(t1)s = %(v1)s; assert!(jet::%(e1)s(f(%(v2)s), %(v1)s)); }"),
         ]:
             out.append((tag, tmpl % d))
+    # three levels: the name is bound in two enclosing scopes and read from a third, deeper one
+    for (t1, v1, t2, v2, e1, e2) in pairs:
+        d = dict(t1=t1, v1=v1, t2=t2, v2=v2, e1=e1, e2=e2)
+        for tag, tmpl in [
+            ("W", "fn main() { let x: %(t1)s = %(v1)s; { let x: %(t2)s = %(v2)s; { assert!(jet::%(e2)s(x, %(v2)s)); }; }; assert!(jet::%(e1)s(x, %(v1)s)); }"),
+            ("I", "fn main() { let x: %(t1)s = %(v1)s; { let x: %(t2)s = %(v2)s; { assert!(jet::%(e1)s(x, %(v1)s)); }; }; }"),
+            ("W", "fn main() { let x: %(t1)s = %(v1)s; { let x: %(t2)s = %(v2)s; match true { true => assert!(jet::%(e2)s(x, %(v2)s)), false => (), }; }; }"),
+            ("W", "fn f(x: %(t1)s) -> %(t2)s { let x: %(t2)s = %(v2)s; match true { true => { x }, false => { let y: %(t2)s = x; y }, } }\nfn main() { assert!(jet::%(e2)s(f(%(v1)s), %(v2)s)); }"),
+            ("I", "fn f(x: %(t1)s) -> %(t1)s { let x: %(t2)s = %(v2)s; match true { true => { x }, false => { x }, } }\nfn main() { assert!(jet::%(e1)s(f(%(v1)s), %(v1)s)); }"),
+            ("W", "fn main() { let x: %(t1)s = %(v1)s; let y: %(t2)s = { let x: %(t2)s = %(v2)s; { let z: %(t2)s = { x }; z } }; assert!(jet::%(e2)s(y, %(v2)s)); assert!(jet::%(e1)s(x, %(v1)s)); }"),
+            ("W", "fn main() { let x: %(t1)s = %(v1)s; match Some(%(v2)s) { None => (), Some(x: %(t2)s) => { { assert!(jet::%(e2)s(x, %(v2)s)); }; }, }; assert!(jet::%(e1)s(x, %(v1)s)); }"),
+        ]:
+            out.append((tag, tmpl % d))
     out.append(("W", "fn main() { let (a, b): (u8, u8) = (1, 2); let c: u8 = 3; let a: u8 = 4; let t: (u8, u8) = (a, c); assert!(jet::eq_16(<(u8, u8)>::into(t), 1027)); let s: (u8, u8) = (b, a); assert!(jet::eq_16(<(u8, u8)>::into(s), 516)); }"))
     out.append(("W", "fn g(x: u8, y: u8) -> u16 { <(u8, u8)>::into((x, y)) }\nfn f(a: u8, b: u8) -> u16 { let a: u8 = 9; g(a, b) }\nfn main() { assert!(jet::eq_16(f(1, 2), 2306)); }"))
     out.append(("W", "fn main() { let [a, b]: [u8; 2] = [1, 2]; let a: u8 = 7; let (x, y): (u8, u8) = (a, b); assert!(jet::eq_8(x, 7)); assert!(jet::eq_8(y, 2)); let arr: [u8; 2] = [b, a]; let [p, q]: [u8; 2] = arr; assert!(jet::eq_8(p, 2)); assert!(jet::eq_8(q, 7)); }"))
     out.append(("W", "fn h(a: u8, b: u8, c: u8) -> (u8, u8, u8) { let b: u8 = 8; let (c, a): (u8, u8) = (a, c); (a, b, c) }\nfn main() { let (x, y, z): (u8, u8, u8) = h(1, 2, 3); assert!(jet::eq_8(x, 3)); assert!(jet::eq_8(y, 8)); assert!(jet::eq_8(z, 1)); }"))
+    return out
+
+
+# ----------------------------------------------------------------------------- literal notations
+def literal_programs(chk):
+    """an integer constant written in each legal notation at each width, compared leaf by leaf (eq jets on halves) with the same
+    value written in decimal: byte order and digit handling of the hex / binary forms are observable in the compiled program"""
+    from checks.c08 import Prog
+    from checks.c13 import assert_eq, Fresh
+    rng = chk.sub_rng("literals")
+    out = []
+    for k in range(0, 9):
+        w = 1 << k
+        for _ in range(2):
+            v = rng.getrandbits(w) | (1 << (w - 1) if w > 8 else 0)
+            forms = [("dec", str(v))]
+            if w >= 8:
+                forms.append(("hex", "0x%0*x" % (w // 4, v)))
+            if w <= 64 or True:
+                forms.append(("bin", "0b" + format(v, "0%db" % w)))
+            for nm, lit in forms:
+                fresh = Fresh()
+                body = ["let x: u%d = %s;" % (w, lit)] + assert_eq("x", ("U", k), ("u", k, v), fresh)
+                p = Prog("fn main() { %s }" % " ".join(body), [], "literal/%d/%s/%x" % (w, nm, v))
+                p.expect = "ok"
+                out.append(p)
+    # byte arrays in hex notation
+    for n in (1, 2, 5, 16, 32):
+        bs = [rng.getrandbits(8) for _ in range(n)]
+        fresh = Fresh()
+        body = ["let x: [u8; %d] = 0x%s;" % (n, "".join("%02x" % b for b in bs))] + assert_eq("x", ("A", ("U", 3), n), ("a", ("U", 3), tuple(("u", 3, b) for b in bs)), fresh) if n <= 4 else \
+               ["let x: [u8; %d] = 0x%s; let y: [u8; %d] = [%s]; let a: u8 = %s;" % (n, "".join("%02x" % b for b in bs), n, ", ".join(str(b) for b in bs), "1")]
+        out.append(Prog("fn main() { %s }" % " ".join(body), [], "literal/bytes/%d" % n))
     return out
